@@ -283,6 +283,39 @@ def run(prog, rep):
         pass
     rep.floor("C17.4", 3)
 
+    # ---- C17.5 IPv4 classification constants ------------------------------------------------------
+    rep.rule("C17.5", "IPv4 classification: is_any compares the address with 0.0.0.0; is_loopback tests (host-order address & 0xff000000) == 0x7f000000, i.e. 127.0.0.0/8, on a byte-swapped copy of the stored network-order address")
+    for fname, want in (("p_socket_address_is_any", ("any", None, 0)), ("p_socket_address_is_loopback", ("loop", 0xff000000, 0x7f000000))):
+        fn = u.fn(fname)
+        cmps = []
+        for b, i, n in fn.nodes():
+            if n["k"] == "bin" and n["op"] == "==" and cv(n["r"]) is not None and strip_casts(n["l"]) is not None:
+                l = strip_casts(n["l"])
+                if l["k"] == "bin" and l["op"] == "&" and cv(l["r"]) is not None:
+                    cmps.append((cv(l["r"]) & 0xffffffff, cv(n["r"]) & 0xffffffff, root_var(l["l"]), n))
+                elif l["k"] == "ref" and (fn.unit.type_of(l) or {}).get("w") == 32:
+                    cmps.append((None, cv(n["r"]) & 0xffffffff, l["name"], n))
+        cmps = [c for c in cmps if c[2] not in fn.param_names()]
+        ok5 = len(cmps) == 1 and cmps[0][0] == want[1] and cmps[0][1] == want[2]
+        # the compared local is the byte-swapped stored address
+        swapped = False
+        if cmps:
+            var = cmps[0][2]
+            for b, i, n in fn.nodes():
+                if n["k"] == "asg" and root_var(n["l"]) == var and strip_casts(n["l"])["k"] == "ref":
+                    shifts = sorted(cv(x["r"]) for x in walk(n["r"]) if x["k"] == "bin" and x["op"] in ("<<", ">>") and cv(x["r"]) is not None)
+                    mentions = any(x["k"] == "member" and x["field"] == "sin_addr" for x in walk(n["r"]))
+                    if mentions and (shifts == [8, 8, 24, 24] or any(c.get("callee") in ("ntohl", "__bswap_32") for c in calls(n["r"]))):
+                        swapped = True
+        if want[0] == "any":
+            swapped = swapped or bool(cmps)        # 0 is the same in both byte orders
+        rep.ob("C17.5", fn, "ipv4", ok5 and swapped,
+               ("0.0.0.0 test" if want[0] == "any" else "(host-order address & 0xff000000) == 0x7f000000") if ok5 and swapped else
+               "the IPv4 %s test is %s%s" % ("any-address" if want[0] == "any" else "loopback",
+                                            ", ".join("(& %s) == %s" % (hex(c[0]) if c[0] is not None else "-", hex(c[1])) for c in cmps) or "missing",
+                                            "" if swapped else " on an address that is not converted to host order"), fn.loc[0])
+    rep.floor("C17.5", 2)
+
 
 def swaps(name):
     return bool(name) and any(x in name for x in ("htons", "ntohs", "bswap", "__uint16_identity"))
@@ -343,6 +376,10 @@ SELFTEST = [
          old="\t\thints.ai_flags    = AI_NUMERICHOST;", new="\t\thints.ai_flags    = 0;"),
     dict(id="addrinfo-leak", file="src/psocketaddress.c", expect="C17.4",
          old="\t\t} else\n\t\t\tret = NULL;\n\n\t\tfreeaddrinfo (res);", new="\t\t} else\n\t\t\treturn NULL;\n\n\t\tfreeaddrinfo (res);"),
+    dict(id="loopback-mask-16", file="src/psocketaddress.c", expect="C17.5",
+         old="\t\treturn ((addr4 & 0xff000000) == 0x7f000000);", new="\t\treturn ((addr4 & 0xffff0000) == 0x7f000000);"),
+    dict(id="loopback-no-ntohl", file="src/psocketaddress.c", expect="C17.5", count=1,
+         old="\t\taddr4 = p_ntohl (* ((puint32 *) &addr->addr.sin_addr));\n\n\t\t/* 127.0.0.0/8 */", new="\t\taddr4 = * ((puint32 *) &addr->addr.sin_addr);\n\n\t\t/* 127.0.0.0/8 */"),
     dict(id="htons-ntohs-exchanged-neutral", expect=None, edits=[
         dict(file="src/psocketaddress.c", old="\t\tsin->sin_port   = p_htons (addr->port);", new="\t\tsin->sin_port   = p_ntohs (addr->port);")]),
 ]
